@@ -19,7 +19,7 @@
   `64·(len r0 + len r1) + 1`: the product `r0·r1` halves per Euclid step, `euclid_product_halves`) and no `u64`
   overflow of the shift amount is reachable for canonical inputs.
 
-  Hypotheses beyond canonicity: `P.ValidModPowD` = window width 4 (C05) ∧ the multiplication thresholds valid (C02),
+  Hypotheses beyond canonicity: `P.ValidModPowD` = window width valid and equal to the squarings per window (C05) ∧ the multiplication thresholds valid (C02),
   discharged for the extracted parameters by `gen_params_valid_modpowD`; and, on the odd-modulus path only,
   `m.length < 2^57`, i.e. the `u64` product `2 * num_words * 64` of `monty_modpow` does not overflow (a modulus of
   2^57 digits needs 2^60 bytes).
@@ -92,7 +92,7 @@ theorem monty_modpowD_spec (P : Params) (hP : P.ValidMonty) (x y m : List Nat) (
     (hm : m = m0 :: mt) (hodd : m0 % 2 = 1) (hx : Canon x) (hy : DigitsOk y) (hmc : Canon m)
     (hsz : m.length < 2 ^ 57) :
     montyModpowD P x y m = .ok (ofNat (val x ^ val y % val m)) :=
-  montyModpowD_spec P hP x y m m0 mt hm hodd hx hy hmc (monty_shift_fits hsz)
+  montyModpowD_spec P hP.1 hP.2.1 hP.2.2.2 x y m m0 mt hm hodd hx hy hmc (monty_shift_fits hsz)
 
 /-- the digit-level operator steps (`%=`, `<<`, `%`, `>=`, `-=`) compute what the value-level steps of
     `NB.montyModpow` compute -/
